@@ -78,14 +78,20 @@ def handleHaarExt (op : String) (inp : Json) (impl : Option Json) : R (Option Js
       pure (if inRange then [] else ["window_index_outside_signal"])
     pure (some (obj [("out", arrJ (model.map intsJ)), ("src", arrJ (src.map intsJ)), ("spec", spec)]))
   | "hmm_init" =>
-    let spec ← specOf impl fun ij => do
-      let start ← getList getRat (← fld ij "start")
-      let trans ← getList (getList getRat) (← fld ij "trans")
-      pure ((if startPrefersNeutral start then [] else ["hmm_start_prefers_neutral_symmetric"]) ++
-            (if stickyMatrix 100 trans then [] else ["hmm_transitions_sticky_symmetric"]))
+    -- no clause of the property speaks about the initial model: the observed arguments of `from_matrix` are compared
+    -- with the generated constants by the harness (a difference breaks the tie, it is not a spec failure); the shape
+    -- predicates are reported for the evidence only
+    let shape ← (match impl with
+      | none => pure Json.null
+      | some ij => do
+        let start ← getList getRat (← fld ij "start")
+        let trans ← getList (getList getRat) (← fld ij "trans")
+        pure (obj [("start_prefers_neutral", boolJ (startPrefersNeutral start)),
+                   ("transitions_sticky_100", boolJ (stickyMatrix 100 trans))]))
+    let spec ← specOf impl fun _ => pure []
     pure (some (obj [("out", obj [("start", ratsJ Generated.HMM_START_3), ("trans", matJ Generated.HMM_TRANS_3),
                                   ("args", strsJ Generated.HMM_FROM_MATRIX_ARGS)]),
-                     ("spec", spec)]))
+                     ("observed_shape", shape), ("spec", spec)]))
   | _ => pure none
 
 end CnvVerif.Drv.HaarExt
